@@ -117,7 +117,7 @@ var checks = map[string]*Check{
 		RealStub:    coreRealStub,
 	},
 	"C11": {
-		Legs:        []Leg{{World: "C11", Weight: 3}, {World: "C11", Race: true, Weight: 1}},
+		Legs:        []Leg{{World: "C11", Weight: 3}, {World: "C11/nobig", Race: true, Weight: 1}},
 		Probes:      []string{"both_directions", "idle_poll_408", "data_post_more_than_10", "poll_returned_more_than_10", "injection_applied", "concurrent_sessions", "backend_closed_after_last_message", "session_opened_after_another_closed", "close_behind_backlog", "data_post_above_2_mib"},
 		Rule:        "Harness shim client (protocol of the injected script: open, then one data post and one poll outstanding at a time, close) -> real proxy -> real agent (shim handlers, relay goroutines) -> real gorilla websocket backend. one or two concurrent sessions; 0..30 (thorough ..120) messages per direction and session: ASCII/UTF-8 text, arbitrary binary, JSON documents; sizes 0..40 KB (thorough ..1 MiB); batches of 1..25 messages per data post; pauses up to 21 s (idle polls end in 408); protocol version 0/1/absent; header injection on in a third of the runs. Two FIFO reference queues compared at quiescence. Also: browsers running two sessions one after the other while another session is in use, backends that close after their last message, ignore the closing handshake or read slowly behind small socket buffers, and a close issued at once behind a backlog of accepted messages.",
 		Assumptions: commonAssumptions,
